@@ -192,6 +192,8 @@ def work(spec):
         res["truncated"] = [a for a in res["aborts"] if "budget" in a or "path bound" in a]
         res["aborts"] = [a for a in res["aborts"] if a not in res["truncated"]]
         res["hunt_paths"] = ex.stats.paths
+        res["undecided"] = len(res["unknowns"])      # solver `unknown` inside a hunting slice: counted, not a verdict either way
+        res["unknowns"] = []
     return res
 
 
@@ -330,7 +332,7 @@ def main(tier, seed):
         rep.merge_worker("angles", r)
         if sp_.get("hunt"):
             hunting.append({"slice": {k: sp_[k] for k in ("tol_lo", "tol_hi", "d0", "d1")}, "paths_explored": r.get("hunt_paths"),
-                            "stopped_by_budget": bool(r.get("truncated"))})
+                            "stopped_by_budget": bool(r.get("truncated")), "obligations_undecided": r.get("undecided", 0)})
     rep.section("angles", None, specs=len(specs))
     rep.extra["hunting_slices"] = hunting
     ex = Explorer(max_paths=50)
